@@ -121,6 +121,11 @@ pub fn build(r: &mut Rng, kind: ConnKind, client: Endpoint, server: Endpoint, o:
         }
         ConnKind::Http1 => {
             let (rq, rs) = if r.chance(1, 8) { (http1::exotic_request(r), http1::exotic_response(r)) } else { (http1::request(r, 300), http1::response(r, 600)) };
+            // one request in six is written to match a signature of the database
+            let rq = match (r.chance(1, 6), http1::request_from_signature(r)) {
+                (true, Some(m)) => m,
+                _ => rq,
+            };
             // one request in twelve carries, as the value of its last header, bytes that are also a complete
             // ClientHello record, and the segment boundary falls exactly in front of them
             match (r.chance(1, 12), tls::ascii_client_hello(r)) {
@@ -218,6 +223,14 @@ pub fn build(r: &mut Rng, kind: ConnKind, client: Endpoint, server: Endpoint, o:
             let body = r.bytes(n);
             let (h, a, b, sq, ak, ecr) = if from_client { (&hc, client, server, seq_c, seq_s, hs.tsval(t)) } else { (&hs, server, client, seq_s, seq_c, hc.tsval(t)) };
             steps.push(Step { dt_ns: g, seg: tcp::data(h, a, b, sq, ak, body, t, ecr, pkt::ACK | pkt::RST) });
+        }
+    }
+    // hop counts vary: on one connection in eight either side's packets arrive with an arbitrary TTL
+    if r.chance(1, 8) {
+        let from_client = r.chance(2, 3);
+        let t = 1 + r.below(255) as u8;
+        for st in steps.iter_mut().filter(|st| (st.seg.src == client) == from_client) {
+            st.seg.ttl = t;
         }
     }
     // every host has a NIC; frames towards the server carry (server mac, client mac) and vice versa
